@@ -377,6 +377,7 @@ class Interp:
         self.trace_calls = None  # optional list collecting (caller, callee) FuncInfo pairs
         self.on_stmt = None      # optional callback(interp, frame, stmt)
         self.on_recursion = None  # optional callback(interp, fi, args, kwargs) for re-entered functions
+        self.on_index = None      # optional observer(interp, base, index, node) of every subscript evaluation
         self.loop_probe = None    # optional callback(interp, frame, while_stmt) -> hashable progress snapshot or None
 
     # ---- bookkeeping ---------------------------------------------------
@@ -1568,6 +1569,8 @@ class Interp:
         return self.getitem(base, idx, e)
 
     def getitem(self, base, idx, node=None):
+        if self.on_index is not None:
+            self.on_index(self, base, idx, node)
         if is_abstract(base):
             if hasattr(base, 'abs_getitem'):
                 return base.abs_getitem(self, idx)
@@ -1644,8 +1647,9 @@ class Interp:
         return GenList(self.ex_ListComp(e, frame))
 
     def ex_SetComp(self, e, frame):
-        if _is_unicode_category_comp(e):
-            return UnicodeCategorySet(_is_unicode_category_comp(e))
+        cats = _is_unicode_category_comp(e, lambda x: self.eval(x, frame))
+        if cats is not None:
+            return UnicodeCategorySet(cats)
         return set(self.ex_ListComp(e, frame))
 
     def ex_DictComp(self, e, frame):
@@ -1696,14 +1700,30 @@ class LoopTruncated(InterpError):
         self.node = node
 
 
-class UnicodeCategorySet(AbstractValue):
-    """{c for c in <all code points> if category(c).startswith(P)} kept symbolic."""
+ALL_CATEGORIES = ('Lu', 'Ll', 'Lt', 'Lm', 'Lo', 'Mn', 'Mc', 'Me', 'Nd', 'Nl', 'No', 'Pc', 'Pd', 'Ps', 'Pe', 'Pi', 'Pf', 'Po',
+                  'Sm', 'Sc', 'Sk', 'So', 'Zs', 'Zl', 'Zp', 'Cc', 'Cf', 'Cs', 'Co', 'Cn')
 
-    def __init__(self, prefix):
-        self.prefix = prefix
+
+class UnicodeCategorySet(AbstractValue):
+    """{c for c in <all code points> if <test on category(c)>} kept symbolic: the set of general categories
+    whose members it holds."""
+
+    def __init__(self, prefix_or_categories):
+        if isinstance(prefix_or_categories, str):
+            self.categories = frozenset(c for c in ALL_CATEGORIES if c.startswith(prefix_or_categories))
+        else:
+            self.categories = frozenset(prefix_or_categories)
+
+    @property
+    def prefix(self):
+        """The one-letter class if the set is exactly that class (e.g. 'P' for all punctuation categories)."""
+        for letter in 'LMNPSZC':
+            if self.categories == frozenset(c for c in ALL_CATEGORIES if c.startswith(letter)):
+                return letter
+        return None
 
     def __repr__(self):
-        return 'UnicodeCategorySet(%r)' % self.prefix
+        return 'UnicodeCategorySet(%s)' % (self.prefix or sorted(self.categories))
 
 
 class UnionSet(AbstractValue):
@@ -1721,19 +1741,48 @@ class UnionSet(AbstractValue):
         return Unknown('in-union')
 
 
-def _is_unicode_category_comp(e):
-    """Recognise {c for c in X if category(c).startswith('P')} -> 'P'."""
+def _is_unicode_category_comp(e, evaluate=None):
+    """Recognise {c for c in X if <test on category(c)>}: returns the prefix or the set of categories accepted,
+    for the tests  category(c).startswith(K),  category(c) in <constant collection>,  category(c) == K,
+    category(c)[0] == K.  `evaluate` folds a non-literal collection expression (a module constant)."""
     if len(e.generators) != 1 or not isinstance(e.elt, ast.Name):
         return None
     g = e.generators[0]
     if len(g.ifs) != 1:
         return None
     t = g.ifs[0]
+
+    def is_cat(x):
+        return isinstance(x, ast.Call) and isinstance(x.func, (ast.Name, ast.Attribute)) and \
+            (x.func.id if isinstance(x.func, ast.Name) else x.func.attr) == 'category' and len(x.args) == 1
     if (isinstance(t, ast.Call) and isinstance(t.func, ast.Attribute) and t.func.attr == 'startswith'
-            and isinstance(t.func.value, ast.Call) and isinstance(t.func.value.func, ast.Name)
-            and t.func.value.func.id == 'category' and len(t.args) == 1
-            and isinstance(t.args[0], ast.Constant)):
-        return t.args[0].value
+            and is_cat(t.func.value) and len(t.args) == 1):
+        a = t.args[0]
+        if isinstance(a, ast.Constant) and isinstance(a.value, str):
+            return a.value
+        if isinstance(a, ast.Tuple) and all(isinstance(x, ast.Constant) and isinstance(x.value, str) for x in a.elts):
+            return frozenset(c for c in ALL_CATEGORIES if c.startswith(tuple(x.value for x in a.elts)))
+        return None
+    if isinstance(t, ast.Compare) and len(t.ops) == 1:
+        l, op, r = t.left, t.ops[0], t.comparators[0]
+        if is_cat(l) and isinstance(op, ast.In):
+            vals = None
+            try:
+                vals = ast.literal_eval(r)
+            except (ValueError, SyntaxError):
+                if evaluate is not None:
+                    try:
+                        vals = evaluate(r)
+                    except Exception:
+                        vals = None
+            if isinstance(vals, (set, frozenset, list, tuple)) and all(isinstance(x, str) for x in vals):
+                return frozenset(vals) & frozenset(ALL_CATEGORIES)
+            return None
+        if is_cat(l) and isinstance(op, ast.Eq) and isinstance(r, ast.Constant) and isinstance(r.value, str):
+            return frozenset([r.value]) & frozenset(ALL_CATEGORIES)
+        if isinstance(l, ast.Subscript) and is_cat(l.value) and isinstance(l.slice, ast.Constant) and l.slice.value == 0 \
+                and isinstance(op, ast.Eq) and isinstance(r, ast.Constant) and isinstance(r.value, str) and len(r.value) == 1:
+            return r.value
     return None
 
 
